@@ -388,6 +388,10 @@ func init() {
 	extend("C11", func(r *Run) {
 		r.borrow("C04", "C04-R1", "C11-R20")
 		pruningWiring(r, "C11-R21")
+		// a governance message that must be refused never reaches ModifyParam's subspace lookup (which ends the
+		// process on a miss): the ACL test and the address comparison it rests on
+		r.borrow("C17", "C17-R1", "C11-R26")
+		addressEquals(r, "C11-R27")
 	})
 	extend("C12", func(r *Run) { r.borrow("C11", "C11-R7", "C12-R14") })
 	extend("C14", func(r *Run) {
